@@ -15,6 +15,7 @@ import VarlinkProofs.Lemmas.GenTyped
 import VarlinkProofs.Lemmas.GenTop2
 import VarlinkProofs.Lemmas.GenTyped2
 import VarlinkProofs.Lemmas.GenDomain
+import VarlinkProofs.Lemmas.GenImports
 import Varlink.Extracted.Code
 import Varlink.ExpectedCode
 namespace Varlink.C07
@@ -38,7 +39,7 @@ def sample : Idl :=
 theorem gen_total (t : Idl) (h : Domain t = true) : ∃ s, genText t = .ok s := by
   obtain ⟨_, _, h3, _, _, _, h7, _⟩ := domain_parts h
   obtain ⟨b, hb⟩ := isSome_of_eq (bodyText_isSome t (memberOk_of_domain t h3 h7))
-  exact ⟨patchImports b, by simp [genText, genTextO, hb, Outcome.ofOption]⟩
+  exact ⟨headText t ++ b, by simp [genText, genTextO, hb, Outcome.ofOption]⟩
 
 /-- the same for the structured view -/
 theorem genFile_total (t : Idl) (h : Domain t = true) : ∃ f, genFile t = some f := by
@@ -49,7 +50,7 @@ theorem genFile_total (t : Idl) (h : Domain t = true) : ∃ f, genFile t = some 
 theorem gen_total_of_walkable (t : Idl) (h3 : t.homogeneous = true) (h7 : ioStructs t = true) :
     (∃ s, genText t = .ok s) ∧ (∃ f, genFile t = some f) := by
   obtain ⟨b, hb⟩ := isSome_of_eq (bodyText_isSome t (memberOk_of_domain t h3 h7))
-  exact ⟨⟨patchImports b, by simp [genText, genTextO, hb, Outcome.ofOption]⟩,
+  exact ⟨⟨headText t ++ b, by simp [genText, genTextO, hb, Outcome.ofOption]⟩,
     isSome_of_eq (genFile_isSome t (memberOk_of_domain t h3 h7))⟩
 
 /-- an enum-typed error (`error E (a, b)`) is outside the domain and makes the generator crash
@@ -63,24 +64,39 @@ example :
 /-! ## package name -/
 
 /-- **package name**: for an interface name of the IDL grammar's shape (a letter, then letters, digits, `.`, `-`)
-    the derived package name is a Go identifier made of lower-case letters and digits only -/
+    the derived package name is a Go identifier, NOT a Go keyword and NOT `main`; it consists of lower-case
+    letters, digits and underscores; it is the interface name in lower case without dots and dashes (`pkgBase`:
+    lower-case letters and digits only), with one `_` appended exactly when that is a keyword or `main`.
+
+    Statement before the repairs a32447a / a04eec4 (the generator had no `_` rule):
+      `isGoIdent (pkgName n) = true ∧ (pkgName n).all (fun c => isLower c || isDigit c) = true`
+    Its first conjunct is kept, its second one now holds for `pkgBase` and — see `pkgname_unchanged` — for
+    `pkgName` whenever the old generator produced a usable name; it said nothing about keywords and `main`
+    (`package if`, `package main` satisfied it). -/
 theorem pkgname_spec (n : Bytes) (h : ifaceNameShape n = true) :
-    isGoIdent (pkgName n) = true ∧ (pkgName n).all (fun c => isLower c || isDigit c) = true := by
-  cases n with
-  | nil => simp [ifaceNameShape] at h
-  | cons c s =>
-    simp only [ifaceNameShape, Bool.and_eq_true] at h
-    obtain ⟨h1, h2, h3⟩ := letter_facts c h.1
-    have ht := pkgName_tail_chars s h.2
-    rw [pkgName_cons_keep c s h1 h2]
-    refine ⟨?_, ?_⟩
-    · simp only [isGoIdent, Bool.and_eq_true]
-      refine ⟨lower_identStart _ h3, ?_⟩
-      rw [List.all_eq_true] at ht ⊢
-      intro x hx
-      exact lowerOrDigit_identChar x (ht x hx)
-    · simp only [List.all_cons, Bool.and_eq_true]
-      exact ⟨by simp [h3], ht⟩
+    isGoIdent (pkgName n) = true ∧ pkgName n ∉ goKeywords ∧ pkgName n ≠ str "main"
+    ∧ (pkgName n).all (fun c => isLower c || isDigit c || c == underscore) = true
+    ∧ (pkgBase n).all (fun c => isLower c || isDigit c) = true
+    ∧ ((pkgName n = pkgBase n ∧ pkgBase n ∉ goKeywords ∧ pkgBase n ≠ str "main")
+        ∨ (pkgName n = pkgBase n ++ str "_" ∧ (pkgBase n ∈ goKeywords ∨ pkgBase n = str "main"))) := by
+  obtain ⟨h1, h2, h3⟩ := pkgName_usable n h
+  obtain ⟨c, r, e, hc, hr⟩ := pkgName_shape n h
+  obtain ⟨c', r', e', hc', hr'⟩ := pkgBase_shape n h
+  refine ⟨h1, h2, h3, ?_, ?_, pkgName_cases n⟩
+  · rw [e]; simp [hc, hr]
+  · rw [e']; simp [hc', hr']
+
+/-- names that are neither a keyword nor `main` are derived exactly as before the repair: lower-case letters
+    and digits only (the previous `pkgname_spec`) -/
+theorem pkgname_unchanged (n : Bytes) (h : ifaceNameShape n = true) (hk : pkgBase n ∉ goKeywords)
+    (hm : pkgBase n ≠ str "main") :
+    pkgName n = pkgBase n ∧ isGoIdent (pkgName n) = true
+    ∧ (pkgName n).all (fun c => isLower c || isDigit c) = true := by
+  obtain ⟨h1, _, _, _, h5, h6⟩ := pkgname_spec n h
+  rcases h6 with ⟨e, _⟩ | ⟨_, hk' | hm'⟩
+  · exact ⟨e, h1, e ▸ h5⟩
+  · exact absurd hk' hk
+  · exact absurd hm' hm
 
 /-- inside the domain the package clause of the emitted file carries that identifier -/
 theorem pkgname_of_domain (t : Idl) (h : Domain t = true) (f : GoFile) (hf : genFile t = some f) :
@@ -90,7 +106,7 @@ theorem pkgname_of_domain (t : Idl) (h : Domain t = true) (f : GoFile) (hf : gen
   have hp : f.pkg = pkgName t.name := by
     obtain ⟨_, _, _, _, _, _, _, _, _, _, _, _, _, _, _, _, _, _, rfl⟩ := genFile_inv hf
     rfl
-  obtain ⟨hi, hc⟩ := pkgname_spec t.name h1.1
+  obtain ⟨hi, _, _, hc, _⟩ := pkgname_spec t.name h1.1
   refine ⟨hp, hp ▸ hi, ?_, ?_⟩ <;>
   · intro hm
     rw [hp] at hm
@@ -99,6 +115,16 @@ theorem pkgname_of_domain (t : Idl) (h : Domain t = true) (f : GoFile) (hf : gen
 
 example : pkgName (str "Com.Example-X.foo-bar9") = str "comexamplexfoobar9" := by decide
 example : ifaceNameShape (str "Com.Example-X.foo-bar9") = true := by decide
+
+/-- the former failing inputs: `interface i.f` gave `package if`, `interface ma.in` gave `package main` -/
+example : ifaceNameShape (str "i.f") = true ∧ pkgName (str "i.f") = str "if_"
+    ∧ ifaceNameShape (str "ma.in") = true ∧ pkgName (str "ma.in") = str "main_"
+    ∧ pkgName (str "Ty.Pe") = str "type_" ∧ pkgName (str "fu.nc") = str "func_" ∧ pkgName (str "g.o") = str "go_" := by
+  decide
+
+/-- only the exact keywords and `main` are touched -/
+example : pkgName (str "i.ff") = str "iff" ∧ pkgName (str "ma.ins") = str "mains"
+    ∧ pkgName (str "in.it") = str "init" := by decide
 
 /-! ## name and description reported at run time -/
 
@@ -157,20 +183,100 @@ example : Domain sample = true := by decide
 
 /-! ## the emitted file is well-formed -/
 
-/-- **package clause**: the package name is a usable identifier unless it is a Go keyword or `main`
-    (known findings, hypothesis `pkgNameUsable`) -/
-theorem gen_pkgOk (t : Idl) (f : GoFile) (h : Domain t = true) (hk : pkgNameUsable t = true)
-    (hf : genFile t = some f) : pkgOk f = true := by
-  obtain ⟨hp, hi, _, _⟩ := pkgname_of_domain t h f hf
+/-- **package clause**: the package name is a usable identifier — a Go identifier, no keyword, not `main` — for
+    EVERY description of the domain (before a32447a / a04eec4: only under the hypothesis `pkgNameUsable t`, i.e.
+    not for `interface i.f`, `interface ma.in`) -/
+theorem gen_pkgOk (t : Idl) (f : GoFile) (h : Domain t = true) (hf : genFile t = some f) : pkgOk f = true := by
+  obtain ⟨hp, _, _, _⟩ := pkgname_of_domain t h f hf
   obtain ⟨h1, _⟩ := domain_parts h
   simp only [nameShapes, Bool.and_eq_true] at h1
-  obtain ⟨_, hc⟩ := pkgname_spec t.name h1.1
-  simp only [pkgNameUsable, Bool.and_eq_true, Bool.not_eq_true', bne_iff_ne, ne_eq] at hk
+  obtain ⟨hi, hk, hm, _, _, _⟩ := pkgname_spec t.name h1.1
+  obtain ⟨c, r, e, hc, _⟩ := pkgName_shape t.name h1.1
   simp only [pkgOk, validName, Bool.and_eq_true, Bool.not_eq_true', bne_iff_ne, ne_eq, hp]
-  refine ⟨⟨⟨hp ▸ hi, hk.1⟩, ?_⟩, hk.2⟩
-  intro e
-  rw [e] at hc
+  refine ⟨⟨⟨hi, by simpa using hk⟩, ?_⟩, hm⟩
+  intro e'
+  rw [e] at e'
+  injection e' with e1 _
+  subst e1
   revert hc; decide
+
+/-- **imports**: the import paths of the emitted file are distinct and the imported packages are EXACTLY the
+    packages its declarations refer to — no unused import, nothing used that is not imported — for every
+    description the generator produces a file for (the domain is not even needed). Before dfa0aa0 this was a
+    hypothesis of `gen_wellformed_partial` and false in the domain (`importsExact`, `placeholderSafe`). -/
+theorem gen_importsOk (t : Idl) (f : GoFile) (hf : genFile t = some f) : importsOk f = true :=
+  importsOk_genFile t f hf
+
+/-- which packages are imported: `varlink` and `context` always, `encoding/json` exactly when an error exists or
+    some emitted type contains `object`, `fmt` exactly when some error has parameters -/
+theorem imports_spec (t : Idl) (f : GoFile) (hf : genFile t = some f) :
+    f.imports = [str "github.com/varlink/go/varlink", str "context"]
+      ++ (if usesJson t then [str "encoding/json"] else []) ++ (if usesFmt t then [str "fmt"] else []) := by
+  obtain ⟨_, _, _, _, _, _, _, _, _, _, _, _, _, _, _, _, _, _, rfl⟩ := genFile_inv hf
+  simp only [assembleFile, importList]
+  cases usesJson t <;> cases usesFmt t <;> decide
+
+/-- **user text has no effect on the imports**: the interface name, the documentation of the interface and of
+    every member, the description text and the member names can be replaced by anything (here: erased) without
+    changing the import list — `@IMPORTS@`, `json.RawMessage`, `fmt.Sprintf`, `context.Context` inside them are
+    just text. Only the kinds of the members and their types matter. -/
+theorem imports_ignore_text (t : Idl) : importList (eraseText t) = importList t := importList_eraseText t
+
+/-- … and the emitted text is the header followed by the declarations; the interface documentation occurs in
+    the header as a comment in front of the package clause and nothing is searched or replaced in it -/
+theorem genText_header (t : Idl) (s : Bytes) (h : genText t = .ok s) :
+    ∃ body, bodyText t = some body ∧
+      s = str "// Code generated by github.com/varlink/go/cmd/varlink-go-interface-generator, DO NOT EDIT.\n\n"
+        ++ writeDocString t.doc ++ str "package " ++ pkgName t.name ++ str "\n\n"
+        ++ str "import (\n" ++ join (str "\n\t") (importList t) ++ str "\n)\n\n" ++ body := by
+  unfold genText genTextO at h
+  cases hb : bodyText t with
+  | none => simp [hb, Outcome.ofOption] at h
+  | some b =>
+    simp only [hb, Option.map_some, Outcome.ofOption, Outcome.ok.injEq] at h
+    exact ⟨b, rfl, by rw [← h]; simp [headText, List.append_assoc]⟩
+
+/-- `interface a.b`, `method M() -> ()` with the given interface documentation -/
+def docSample (doc : String) : Idl :=
+  { name := str "a.b", doc := str doc, description := str "…",
+    members := [.method (str "M") [] (.struct .nil) (.struct .nil)] }
+
+set_option maxRecDepth 20000 in
+/-- former failing input "# see @IMPORTS@ here": in the domain, the documentation stays a comment, the import
+    block is the real one (before: the placeholder inside the comment was replaced, format.Source failed) -/
+example : Domain (docSample "see @IMPORTS@ here") = true
+    ∧ (genFile (docSample "see @IMPORTS@ here")).map (·.imports)
+        = some [str "github.com/varlink/go/varlink", str "context"]
+    ∧ (genTextO (docSample "see @IMPORTS@ here")).map (fun s => hasPrefix s
+        (str "// Code generated by github.com/varlink/go/cmd/varlink-go-interface-generator, DO NOT EDIT.\n\n"
+          ++ str "// see @IMPORTS@ here\npackage ab\n\n"
+          ++ str "import (\n\"github.com/varlink/go/varlink\"\n\t\"context\"\n)\n\n"
+          ++ str "// Generated type declarations\n\n"))
+        = some true := by
+  refine ⟨by decide, by decide, by decide⟩
+
+/-- former failing input "# uses json.RawMessage and fmt.Sprintf" in a description without errors and without
+    `object`: neither package is imported, and `importsOk` holds (before: both imported and unused) -/
+example : Domain (docSample "uses json.RawMessage and fmt.Sprintf") = true
+    ∧ (genFile (docSample "uses json.RawMessage and fmt.Sprintf")).map (·.imports)
+        = some [str "github.com/varlink/go/varlink", str "context"]
+    ∧ ∀ f, genFile (docSample "uses json.RawMessage and fmt.Sprintf") = some f → importsOk f = true :=
+  ⟨by decide, by decide, fun f hf => gen_importsOk _ f hf⟩
+
+/-- the same text in the interface NAME ("interface fmt.Sprintf", "interface json.RawMessage") -/
+example :
+    let t : Idl := { name := str "json.RawMessage", doc := [], description := [],
+                     members := [.method (str "M") [] (.struct .nil) (.struct .nil)] }
+    Domain t = true ∧ (genFile t).map (·.imports) = some [str "github.com/varlink/go/varlink", str "context"]
+    ∧ (genFile t).map (·.pkg) = some (str "jsonrawmessage") := by decide
+
+/-- and the imports that ARE needed are there: an `object` parameter needs json, an error with parameters fmt -/
+example :
+    let t : Idl := { name := str "a.b", doc := str "context.Context", description := [],
+                     members := [.method (str "M") [] (.struct (.typed (str "o") .object .nil)) (.struct .nil),
+                                 .error (str "E") [] (some (.struct (.typed (str "a") .int .nil)))] }
+    Domain t = true ∧ (genFile t).map (·.imports)
+      = some [str "github.com/varlink/go/varlink", str "context", str "encoding/json", str "fmt"] := by decide
 
 /-- **struct types and parameter lists**: every struct type of the emitted file has valid, pairwise distinct field
     names (`strings.Title` is injective on field names), every parameter list valid names that are no keywords -/
@@ -239,37 +345,46 @@ theorem copies_out_welltyped (decls : List Decl) (env : Env) (fs : Fields)
     typedStmts decls env (l ++ rest) = typedStmts decls env rest :=
   copyOutStmts_typed decls env fs hc fs l rest (fun _ hx => hx) hl
 
-/-- FULL STATEMENT of "the emitted file passes the checker" (not proved at this strength, and false for the
-    current generator: see the known findings in `KnownDefectFree`). -/
+/-- FULL STATEMENT of "the emitted file passes the checker" (not proved at this strength: `namesResolve`,
+    `methodsOk` and `noCycleOk` are not proved in Lean; every run evaluates them on every generated description
+    and compares with the Go compiler). Before the repairs dfa0aa0 / a32447a / a04eec4 it was FALSE
+    (`fullStatement_fails`: `interface i.f` gave `package if`); that counterexample now passes, see below. -/
 def FullStatement : Prop := ∀ (t : Idl) (f : GoFile), Domain t = true → genFile t = some f → wellFormed f = true
 
-/-- the full statement fails on the current generator: `interface i.f` gives `package if` -/
-theorem fullStatement_fails : ¬ FullStatement := by
-  intro h
-  have := h { name := str "i.f", doc := [], description := [], members := [.method (str "M") [] (.struct .nil) (.struct .nil)] }
-    _ (by decide) rfl
-  revert this
-  decide
+/-- **gen_wellformed_partial**: what is proved of `FullStatement`. Proved from the domain alone, for EVERY
+    description of the domain: `pkgOk`, `importsOk`, `topLevelOk`, `typesOk`, `scopesOk`, `typedOk`. The remaining
+    sub-checks of `wellFormed` enter as hypotheses: `namesResolve`, `methodsOk` and `noCycleOk`. Every run of the
+    correspondence evaluates `wellFormed` on every generated description of the domain and compares it with the Go
+    compiler (DIFF `theorem-contradicted` / `model-wellformed-but-compiler-rejects` / `model-rejects-but-compiles`).
 
-/-- **gen_wellformed_partial**: what is proved of `FullStatement`. Proved from the domain alone: `pkgOk` (given the
-    package name is no keyword / `main`), `topLevelOk`, `typesOk`, `scopesOk`, `typedOk`. The remaining sub-checks
-    of `wellFormed` enter as hypotheses: `importsOk` (the generator's substring test for imports is a known
-    finding), `namesResolve`, `methodsOk` and `noCycleOk`. Every run of the correspondence evaluates `wellFormed` on every
-    generated description of the domain and compares it with the Go compiler (DIFF `theorem-contradicted` /
-    `model-wellformed-but-compiler-rejects` / `model-rejects-but-compiles`). -/
-theorem gen_wellformed_partial (t : Idl) (f : GoFile) (h : Domain t = true) (hk : pkgNameUsable t = true)
+    Statement before the repairs (two more hypotheses, both false on known inputs of the domain):
+      `… (hk : pkgNameUsable t = true) … (h_imports : importsOk f = true) (h_names …) (h_methods …) (h_cycle …)` -/
+theorem gen_wellformed_partial (t : Idl) (f : GoFile) (h : Domain t = true)
     (hf : genFile t = some f)
-    (h_imports : importsOk f = true) (h_names : namesResolve f = true)
+    (h_names : namesResolve f = true)
     (h_methods : methodsOk f = true) (h_cycle : noCycleOk f = true) :
     wellFormed f = true := by
-  simp [wellFormed, gen_pkgOk t f h hk hf, gen_typesOk t f h hf, gen_scopesOk t f h hf, gen_topLevelOk t f h hf,
-    gen_typedOk t f h hf, h_imports, h_names, h_methods, h_cycle]
+  simp [wellFormed, gen_pkgOk t f h hf, gen_importsOk t f hf, gen_typesOk t f h hf, gen_scopesOk t f h hf,
+    gen_topLevelOk t f h hf, gen_typedOk t f h hf, h_names, h_methods, h_cycle]
 
 /-- the domain hypotheses of the partial theorem are satisfiable (`sample` uses an alias, an optional, an array of
-    structs and an error); that the sample's file passes the six assumed sub-checks is evaluated by the compiled
+    structs and an error); that the sample's file passes the three assumed sub-checks is evaluated by the compiled
     driver on thousands of descriptions per run (kernel `decide` does not reduce the checker's nested recursion) -/
-example : Domain sample = true ∧ pkgNameUsable sample = true ∧ (genFile sample).isSome = true :=
-  ⟨by decide, by decide, rfl⟩
+example : Domain sample = true ∧ (genFile sample).isSome = true :=
+  ⟨by decide, rfl⟩
+
+/-- the former counterexamples to the full statement are in the domain and now get a usable package clause and
+    an exact import block: `interface i.f` → `package if_`, `interface ma.in` → `package main_` -/
+example :
+    let t (n : String) : Idl :=
+      { name := str n, doc := [], description := [], members := [.method (str "M") [] (.struct .nil) (.struct .nil)] }
+    Domain (t "i.f") = true ∧ Domain (t "ma.in") = true
+    ∧ (∀ f, genFile (t "i.f") = some f → f.pkg = str "if_" ∧ pkgOk f = true ∧ importsOk f = true)
+    ∧ (∀ f, genFile (t "ma.in") = some f → f.pkg = str "main_" ∧ pkgOk f = true ∧ importsOk f = true) := by
+  refine ⟨by decide, by decide, fun f hf => ⟨?_, gen_pkgOk _ f (by decide) hf, gen_importsOk _ f hf⟩,
+    fun f hf => ⟨?_, gen_pkgOk _ f (by decide) hf, gen_importsOk _ f hf⟩⟩
+  · exact (pkgname_of_domain _ (by decide) f hf).1.trans (by decide)
+  · exact (pkgname_of_domain _ (by decide) f hf).1.trans (by decide)
 
 /-- **Tie to the source**: the declarations of /repo that this property's model transliterates
     (`Extracted.codeNames_C07`) have, in the current working tree, exactly the fingerprints of the code the
